@@ -9,8 +9,8 @@ env = dict(os.environ, CARGO_NET_OFFLINE="true", CARGO_TARGET_DIR=tg)
 def sh(cmd, timeout=5400):
     r = subprocess.run(cmd, shell=True, cwd=wt, env=env, stdout=subprocess.PIPE, stderr=subprocess.STDOUT, text=True, timeout=timeout)
     return r.returncode, r.stdout
-head = subprocess.check_output(["git", "-C", "/repo", "rev-parse", "HEAD"], text=True).strip()
-sh("git checkout -q -- . ; git clean -fdq ; git checkout -q --detach %s" % head)
+head = sys.argv[5] if len(sys.argv) > 5 else subprocess.check_output(["git", "-C", "/repo", "rev-parse", "HEAD"], text=True).strip()
+sh("git reset -q --hard ; git clean -fdq ; git checkout -q --detach %s ; git reset -q --hard ; git clean -fdq" % head)
 meta = json.load(open(os.path.join(src, "meta.json")))
 res = {"id": sid, "repo_head": head}
 rc, out = sh("git apply --3way %s/patch.diff 2>&1 || git apply %s/patch.diff" % (src, src))
@@ -29,6 +29,15 @@ res["demo_with_change_tail"] = out1[-1500:]
 # suite with the change (demo test excluded by name is not possible generically: the demo is expected to be the only extra failure)
 rcs, outs = sh("cargo nextest run --workspace --no-fail-fast --offline --test-threads 8 2>&1 | grep -E 'FAIL|Summary' | sort -u")
 res["suite_with_change"] = outs[-3000:]
+# re-run every failing test alone (load-induced timing failures pass then)
+names = sorted(set(re.findall(r"FAIL \[[^\]]*\] \(\s*\d+/\d+\) \S+ (\S+)", outs)))
+still = []
+for nm in names:
+    short = nm.split("::")[-1]
+    rcx, outx = sh("cargo nextest run --workspace --offline --test-threads 1 --retries 2 -E 'test(%s)' 2>&1 | grep -E 'Summary'" % short)
+    if rcx != 0 or "failed" in outx:
+        still.append(nm)
+res["suite_failures_after_serial_rerun"] = still
 sh("git apply -R %s/patch.diff" % src)
 rc2, out2 = sh(demo)
 res["demo_without_change_rc"] = rc2
